@@ -1,4 +1,4 @@
-import LeanHelix.Net.Blocks
+import LeanHelix.Net.BlockBody
 /-!
 # The network model, part 5: executions, the invariant, and agreement
 
@@ -14,33 +14,65 @@ open LeanHelix.C01Local (GInv LocalJ LocalValid lift)
 variable {C : NetCfg}
 
 /-- a whole handler (a sequence of atomic blocks) keeps `Core` and extends the valid history -/
-theorem runs_net (hwf : WF C) {e : Event} {i : Nat} {w w' : Term.W} {g : List LEv} (hr : Runs e w w' g) :
+theorem runs_net (hwf : WF C) {e : Event} {spi0 : List Spi} {i : Nat} {w w' : Term.W} {g : List LEv} (hr : Runs e spi0 w w' g) :
     ∀ {T : List LEv} {H : List Ev} (fin : Node), StoreLe w'.n.store fin.store → fin.cfg = w.n.cfg → Univ fin →
       C.honest i = true → (∃ m ∈ C.ms, m.id = i) → Gate (C.cfg i) e → AdmEvent C H e →
       Core C H i w.n T → Valid (setting C hwf) H →
       Core C ((g.map (lift i)).reverse ++ H) i w'.n (g.reverse ++ T)
-      ∧ Valid (setting C hwf) ((g.map (lift i)).reverse ++ H) := by
+      ∧ Valid (setting C hwf) ((g.map (lift i)).reverse ++ H)
+      ∧ (∀ v h f, LEv.acc v h f ∈ g → ApprovedStep e spi0 h ∨ Locked (setting C hwf) ((g.map (lift i)).reverse ++ H) v h)
+      ∧ (∃ l, w'.outs = w.outs ++ l ∧ (∀ rcpt m, Out.send rcpt m ∈ l → AdmMsg C ((g.map (lift i)).reverse ++ H) m)
+          ∧ (SpiA2 e spi0 → BlocksOK w.n → VCBlocksOK w.n →
+              BlocksOK w'.n ∧ VCBlocksOK w'.n ∧ ∀ blk cs, Out.commit blk cs ∈ l → blk.hash = commitHash cs)) := by
   induction hr with
-  | refl w => intro T H fin _ _ _ _ _ _ _ hc hv; exact ⟨hc, hv⟩
+  | refl w =>
+    intro T H fin _ _ _ _ _ _ _ hc hv
+    refine ⟨hc, hv, ?_, [], (List.append_nil _).symm, ?_, ?_⟩
+    · intro _ _ _ hm; cases hm
+    · intro _ _ hm; cases hm
+    · intro _ hb1 hb2; exact ⟨hb1, hb2, fun _ _ hm => by cases hm⟩
   | blk ho hb =>
     intro T H fin hle hcfg hfin hhon hmem hgate hae hc hv
     have hcb := C01Local.blk_cfg hb
-    exact blk_net hwf hb hhon hmem hgate hae hc hv
-      (Univ.sub hcfg.symm ((blk_storeLe hb).trans hle) hfin)
-      (Univ.sub (by rw [hcb]; exact hcfg.symm) hle hfin)
+    have hua := Univ.sub hcfg.symm ((blk_storeLe hb).trans hle) hfin
+    have hub := Univ.sub (a := _) (by rw [hcb]; exact hcfg.symm) hle hfin
+    obtain ⟨r1, r2⟩ := blk_net hwf hb hhon hmem hgate hae hc hv hua hub
+    refine ⟨r1, r2, ?_, _, ho, blk_sends_adm hwf hb hc hua, fun hA2 hb1 hb2 => blk_blocks hwf hb hgate hA2 hc hub hb1 hb2⟩
+    intro v h f hm
+    rcases blk_origin hwf hb hgate hae hc hv hua v h f hm with ho' | ho'
+    · exact Or.inl ho'
+    · exact Or.inr (ho'.mono (fun _ hx => List.mem_append_right _ hx))
   | trans r1 r2 ih1 ih2 =>
     rename_i a b c g1 g2
     intro T H fin hle hcfg hfin hhon hmem hgate hae hc hv
-    obtain ⟨hc1, hv1⟩ := ih1 fin ((runs_storeLe r2).trans hle) hcfg hfin hhon hmem hgate hae hc hv
+    obtain ⟨hc1, hv1, ho1, l1, hl1, hs1, hk1⟩ := ih1 fin ((runs_storeLe r2).trans hle) hcfg hfin hhon hmem hgate hae hc hv
     have hae1 : AdmEvent C ((g1.map (lift i)).reverse ++ H) e :=
       AdmEvent.mono (fun _ h => List.mem_append_right _ h) hae
-    obtain ⟨hc2, hv2⟩ := ih2 fin hle (by rw [C01Local.runs_cfg r1]; exact hcfg) hfin hhon hmem hgate hae1 hc1 hv1
+    obtain ⟨hc2, hv2, ho2, l2, hl2, hs2, hk2⟩ := ih2 fin hle (by rw [C01Local.runs_cfg r1]; exact hcfg) hfin hhon hmem hgate hae1 hc1 hv1
     have e1 : ((g1 ++ g2).map (lift i)).reverse ++ H = (g2.map (lift i)).reverse ++ ((g1.map (lift i)).reverse ++ H) := by
       rw [List.map_append, List.reverse_append, List.append_assoc]
     have e2 : (g1 ++ g2).reverse ++ T = g2.reverse ++ (g1.reverse ++ T) := by
       rw [List.reverse_append, List.append_assoc]
     rw [e1, e2]
-    exact ⟨hc2, hv2⟩
+    refine ⟨hc2, hv2, ?_, l1 ++ l2, by rw [hl2, hl1, List.append_assoc], ?_, ?_⟩
+    · intro v h f hm
+      rcases List.mem_append.mp hm with hm1 | hm2
+      · rcases ho1 v h f hm1 with ho' | ho'
+        · exact Or.inl ho'
+        · exact Or.inr (ho'.mono (fun _ hx => List.mem_append_right _ hx))
+      · exact ho2 v h f hm2
+    · intro rcpt m hm
+      rcases List.mem_append.mp hm with hm1 | hm2
+      · exact AdmEvent.mono (e := .deliver m) (fun _ hx => List.mem_append_right _ hx) (hs1 rcpt m hm1)
+      · exact hs2 rcpt m hm2
+    · intro hA2 hb1 hb2
+      obtain ⟨x1, x2, x3⟩ := hk1 hA2 hb1 hb2
+      obtain ⟨y1, y2, y3⟩ := hk2 hA2 x1 x2
+      refine ⟨y1, y2, ?_⟩
+      intro blk cs hm
+      rcases List.mem_append.mp hm with hm1 | hm2
+      · exact x3 blk cs hm1
+      · exact y3 blk cs hm2
 
 /-! ## the network -/
 
@@ -49,8 +81,10 @@ structure Net where
   started : Nat → Bool
   outs : Nat → List Out
   H : List Ev
+  /-- ghost: the schedule so far (member, event, SPI answers), newest first -/
+  trace : List (Nat × Event × List Spi)
 
-def Net.init (C : NetCfg) : Net := ⟨fun i => { cfg := C.cfg i }, fun _ => false, fun _ => [], []⟩
+def Net.init (C : NetCfg) : Net := ⟨fun i => { cfg := C.cfg i }, fun _ => false, fun _ => [], [], []⟩
 
 def upd {α : Type} (f : Nat → α) (i : Nat) (x : α) : Nat → α := fun j => if j = i then x else f j
 
@@ -62,17 +96,17 @@ blocks of the handling (`hr`, `hst`: the blocks are a decomposition of exactly t
 inductive NStep (C : NetCfg) : Net → Net → Prop where
   | start (net : Net) (i : Nat) (first : Bool) (spi : List Spi) (w' : Term.W) (g : List LEv)
       (hh : C.honest i = true) (hm : ∃ m ∈ C.ms, m.id = i) (hs : net.started i = false)
-      (hr : Runs (.start first) { n := net.node i, spi := spi } w' g)
+      (hr : Runs (.start first) spi { n := net.node i, spi := spi } w' g)
       (hst : step (net.node i) (.start first) spi = (w'.n, w'.outs)) :
       NStep C net ⟨upd net.node i w'.n, upd net.started i true, upd net.outs i (net.outs i ++ w'.outs),
-        (g.map (lift i)).reverse ++ net.H⟩
+        (g.map (lift i)).reverse ++ net.H, (i, .start first, spi) :: net.trace⟩
   | event (net : Net) (i : Nat) (e : Event) (spi : List Spi) (w' : Term.W) (g : List LEv)
       (hh : C.honest i = true) (hm : ∃ m ∈ C.ms, m.id = i) (hs : net.started i = true)
       (hns : ∀ c, e ≠ .start c) (hg : Gate (C.cfg i) e) (ha : AdmEvent C net.H e)
-      (hr : Runs e { n := net.node i, spi := spi } w' g)
+      (hr : Runs e spi { n := net.node i, spi := spi } w' g)
       (hst : step (net.node i) e spi = (w'.n, w'.outs)) :
       NStep C net ⟨upd net.node i w'.n, upd net.started i true, upd net.outs i (net.outs i ++ w'.outs),
-        (g.map (lift i)).reverse ++ net.H⟩
+        (g.map (lift i)).reverse ++ net.H, (i, e, spi) :: net.trace⟩
 
 inductive Reach (C : NetCfg) : Net → Prop where
   | init : Reach C (Net.init C)
@@ -86,9 +120,17 @@ structure NodeInv (C : NetCfg) (H : List Ev) (i : Nat) (n : Node) (outs : List O
   univ : Univ n
   views : ViewsOK n
   lv : C10.LVInv n
+  /-- everything the member has sent is admissible: the network never forbids delivering it to a correct peer -/
+  sends : ∀ rcpt m, Out.send rcpt m ∈ outs → AdmMsg C H m
+
+/-- some step of member `m` in the schedule approved hash `h` (see `ApprovedStep`) -/
+def ApprovedBy (trace : List (Nat × Event × List Spi)) (m h : Nat) : Prop :=
+  ∃ t ∈ trace, t.1 = m ∧ ApprovedStep t.2.1 t.2.2 h
 
 structure NetInv (C : NetCfg) (hwf : WF C) (net : Net) : Prop where
   valid : Valid (setting C hwf) net.H
+  /-- every hash a correct member accepted was approved by its own consumer or certified in an earlier view -/
+  origin : ∀ i v h, Ev.acc i v h ∈ net.H → ApprovedBy net.trace i h ∨ Locked (setting C hwf) net.H v h
   fresh : ∀ i, net.started i = false → net.node i = { cfg := C.cfg i } ∧ net.outs i = [] ∧ net.H.filter (mine i) = []
   nodes : ∀ i, C.honest i = true → (∃ m ∈ C.ms, m.id = i) → net.started i = true → NodeInv C net.H i (net.node i) (net.outs i)
 
@@ -152,18 +194,38 @@ theorem filter_frame {H : List Ev} {i j : Nat} (hij : i ≠ j) (g : List LEv) :
 theorem step_inv (hwf : WF C) (net : Net) (hinv : NetInv C hwf net) (i : Nat) (e : Event) (spi : List Spi)
     (w' : Term.W) (g : List LEv) (hh : C.honest i = true) (hm : ∃ m ∈ C.ms, m.id = i)
     (hgate : Gate (C.cfg i) e) (ha : AdmEvent C net.H e)
-    (hr : Runs e { n := net.node i, spi := spi } w' g) (hst : step (net.node i) e spi = (w'.n, w'.outs))
+    (hr : Runs e spi { n := net.node i, spi := spi } w' g) (hst : step (net.node i) e spi = (w'.n, w'.outs))
     (hni : NodeInv C net.H i (net.node i) (net.outs i)) (hstart : ∀ c, e = .start c → (net.node i).view = 0)
     (hcl : EventClean (net.node i) e) :
     NetInv C hwf ⟨upd net.node i w'.n, upd net.started i true, upd net.outs i (net.outs i ++ w'.outs),
-      (g.map (lift i)).reverse ++ net.H⟩ := by
+      (g.map (lift i)).reverse ++ net.H, (i, e, spi) :: net.trace⟩
+    ∧ (SpiA2 e spi → BlocksOK (net.node i) → VCBlocksOK (net.node i) →
+        BlocksOK w'.n ∧ VCBlocksOK w'.n ∧ ∀ blk cs, Out.commit blk cs ∈ w'.outs → blk.hash = commitHash cs) := by
   obtain ⟨T, hcore, herase⟩ := hni.core
   have hcfg : (net.node i).cfg = C.cfg i := hcore.cfg
   have hfin : Univ w'.n := by
     have := univ_step (net.node i) e spi (by rw [hcfg]; exact isMember_of_mem C i hm) hstart hcl hni.univ
     rw [hst] at this; exact this
-  obtain ⟨hc', hv'⟩ := runs_net hwf hr w'.n (StoreLe.refl _) (C01Local.runs_cfg hr) hfin hh hm hgate ha hcore hinv.valid
-  refine ⟨hv', ?_, ?_⟩
+  obtain ⟨hc', hv', ho', lnew, hlnew, hsnew, hbody⟩ := runs_net hwf hr w'.n (StoreLe.refl _) (C01Local.runs_cfg hr) hfin hh hm hgate ha hcore hinv.valid
+  have hl' : w'.outs = lnew := by simpa using hlnew
+  refine ⟨⟨hv', ?_, ?_, ?_⟩, by rw [hl']; exact hbody⟩
+  · intro j v h hacc
+    dsimp only at hacc ⊢
+    rcases List.mem_append.mp hacc with hnew | hold
+    · rw [List.mem_reverse, List.mem_map] at hnew
+      obtain ⟨x, hx, hxe⟩ := hnew
+      have hj : j = i := by
+        have := evOwner_lift i x
+        rw [hxe] at this
+        exact this
+      subst hj
+      obtain ⟨f, rfl⟩ := lift_inj_acc hxe
+      rcases ho' v h f hx with hap | hlk
+      · exact Or.inl ⟨(j, e, spi), List.mem_cons_self .., rfl, hap⟩
+      · exact Or.inr hlk
+    · rcases hinv.origin j v h hold with ⟨t, ht, h1, h2⟩ | hlk
+      · exact Or.inl ⟨t, List.mem_cons_of_mem _ ht, h1, h2⟩
+      · exact Or.inr (hlk.mono (fun _ hx => List.mem_append_right _ hx))
   · intro j hsj
     dsimp only at hsj ⊢
     by_cases hji : j = i
@@ -179,7 +241,7 @@ theorem step_inv (hwf : WF C) (net : Net) (hinv : NetInv C hwf net) (i : Nat) (e
     · subst hji
       show NodeInv C _ j (upd net.node j w'.n j) (upd net.outs j (net.outs j ++ w'.outs) j)
       rw [upd_same, upd_same]
-      refine ⟨⟨g.reverse ++ T, hc', ?_⟩, hfin, ?_, ?_⟩
+      refine ⟨⟨g.reverse ++ T, hc', ?_⟩, hfin, ?_, ?_, ?_⟩
       · obtain ⟨l, hl, hle⟩ := hr.erase
         have houts : w'.outs = l := by simpa using hl
         rw [List.filterMap_append, herase, houts, hle, List.reverse_append, List.reverse_reverse, List.filterMap_append]
@@ -187,14 +249,23 @@ theorem step_inv (hwf : WF C) (net : Net) (hinv : NetInv C hwf net) (i : Nat) (e
         rw [hst] at this; exact this
       · have := (C10.step_nv (net.node j) e spi hni.lv).2.1
         rw [hst] at this; exact this
+      · intro rcpt m hm
+        rcases List.mem_append.mp hm with hm1 | hm2
+        · exact AdmEvent.mono (e := .deliver m) (fun _ hx => List.mem_append_right _ hx) (hni.sends rcpt m hm1)
+        · rw [hl'] at hm2
+          exact hsnew rcpt m hm2
     · have hsj' : net.started j = true := by rw [upd_other _ _ hji] at hsj; exact hsj
-      obtain ⟨⟨Tj, hcj, hej⟩, huj, hvj, hlj⟩ := hinv.nodes j hhj hmj hsj'
+      obtain ⟨⟨Tj, hcj, hej⟩, huj, hvj, hlj, hsj⟩ := hinv.nodes j hhj hmj hsj'
       show NodeInv C _ j (upd net.node i w'.n j) (upd net.outs i (net.outs i ++ w'.outs) j)
       rw [upd_other _ _ hji, upd_other _ _ hji]
-      exact ⟨⟨Tj, core_frame (Ne.symm hji) g hcj, hej⟩, huj, hvj, hlj⟩
+      exact ⟨⟨Tj, core_frame (Ne.symm hji) g hcj, hej⟩, huj, hvj, hlj,
+        fun rcpt m hm => AdmEvent.mono (e := .deliver m) (fun _ hx => List.mem_append_right _ hx) (hsj rcpt m hm)⟩
 
-theorem netInv_init (hwf : WF C) : NetInv C hwf (Net.init C) :=
-  ⟨.nil, fun _ _ => ⟨rfl, rfl, rfl⟩, fun _ _ _ hs => by cases hs⟩
+theorem netInv_init (hwf : WF C) : NetInv C hwf (Net.init C) where
+  valid := .nil
+  origin := by intro _ _ _ hm; cases hm
+  fresh := fun _ _ => ⟨rfl, rfl, rfl⟩
+  nodes := by intro _ _ _ hs; cases hs
 
 /-- **the invariant holds in every reachable state of the network** -/
 theorem reach_inv (hwf : WF C) {net : Net} (hr : Reach C net) : NetInv C hwf net := by
@@ -206,14 +277,78 @@ theorem reach_inv (hwf : WF C) {net : Net} (hr : Reach C net) : NetInv C hwf net
       obtain ⟨f1, f2, f3⟩ := ih.fresh i hs
       have hni : NodeInv C net.H i (net.node i) (net.outs i) := by
         rw [f1, f2]
-        exact ⟨⟨[], core_init C net.H i f3, rfl⟩, univ_init _, viewsOK_init _, C10.lvInv_init _⟩
-      exact step_inv hwf net ih i (.start first) spi w' g hh hm trivial trivial hr hst hni (by intro c _; rw [f1]) trivial
+        exact ⟨⟨[], core_init C net.H i f3, rfl⟩, univ_init _, viewsOK_init _, C10.lvInv_init _, fun _ _ hm => by cases hm⟩
+      exact (step_inv hwf net ih i (.start first) spi w' g hh hm trivial trivial hr hst hni (by intro c _; rw [f1]) trivial).1
     | event i e spi w' g hh hm hs hns hg ha hr hst =>
       have hni := ih.nodes i hh hm hs
       obtain ⟨T, hcore, _⟩ := hni.core
-      refine step_inv hwf net ih i e spi w' g hh hm hg ha hr hst hni ?_ ?_
+      refine (step_inv hwf net ih i e spi w' g hh hm hg ha hr hst hni ?_ ?_).1
       · intro c hc; exact absurd hc (hns c)
       · have := eventClean_of_gate (net.node i) e (by rw [hcore.cfg]; exact hg)
         exact this
+
+/-! ## block bodies, under the consumer contract A2 -/
+
+/-- for every started correct member: stored proposals and logged votes carry blocks that commit to
+their hashes, and every commit callback got a block that commits to the certified hash -/
+def BodyInv (C : NetCfg) (net : Net) : Prop :=
+  ∀ i, C.honest i = true → (∃ m ∈ C.ms, m.id = i) →
+    BlocksOK (net.node i) ∧ VCBlocksOK (net.node i) ∧ ∀ blk cs, Out.commit blk cs ∈ net.outs i → blk.hash = commitHash cs
+
+theorem bodyInv_fresh (c : Cfg) : BlocksOK { cfg := c } ∧ VCBlocksOK { cfg := c } := by
+  constructor
+  · intro p h; cases h
+  · intro m h; cases h
+
+/-- **under A2 the block-body invariant holds in every reachable state** -/
+theorem reach_blocks (hwf : WF C) {net : Net} (hr : Reach C net) (hA2 : TraceA2 net.trace) : BodyInv C net := by
+  induction hr with
+  | init =>
+    intro i _ _
+    exact ⟨(bodyInv_fresh _).1, (bodyInv_fresh _).2, fun _ _ hm => by cases hm⟩
+  | @step net _ hprev hs ih =>
+    have hinv := reach_inv hwf hprev
+    -- both kinds of step extend the trace by one entry and run `step_inv`
+    have common : ∀ (i : Nat) (e : Event) (spi : List Spi) (w' : Term.W) (g : List LEv),
+        C.honest i = true → (∃ m ∈ C.ms, m.id = i) →
+        (SpiA2 e spi → BlocksOK (net.node i) → VCBlocksOK (net.node i) →
+          BlocksOK w'.n ∧ VCBlocksOK w'.n ∧ ∀ blk cs, Out.commit blk cs ∈ w'.outs → blk.hash = commitHash cs) →
+        TraceA2 ((i, e, spi) :: net.trace) →
+        BodyInv C ⟨upd net.node i w'.n, upd net.started i true, upd net.outs i (net.outs i ++ w'.outs),
+          (g.map (lift i)).reverse ++ net.H, (i, e, spi) :: net.trace⟩ := by
+      intro i e spi w' g hh hm hstep hA2'
+      have hold := ih (fun t ht => hA2' t (List.mem_cons_of_mem _ ht))
+      have hA2e : SpiA2 e spi := hA2' (i, e, spi) List.mem_cons_self
+      intro j hhj hmj
+      by_cases hji : j = i
+      · subst hji
+        obtain ⟨o1, o2, o3⟩ := hold j hhj hmj
+        obtain ⟨n1, n2, n3⟩ := hstep hA2e o1 o2
+        show BlocksOK (upd net.node j w'.n j) ∧ VCBlocksOK (upd net.node j w'.n j) ∧
+          ∀ blk cs, Out.commit blk cs ∈ upd net.outs j (net.outs j ++ w'.outs) j → blk.hash = commitHash cs
+        rw [upd_same, upd_same]
+        refine ⟨n1, n2, ?_⟩
+        intro blk cs hmem
+        rcases List.mem_append.mp hmem with h1 | h2
+        · exact o3 blk cs h1
+        · exact n3 blk cs h2
+      · show BlocksOK (upd net.node i w'.n j) ∧ VCBlocksOK (upd net.node i w'.n j) ∧
+          ∀ blk cs, Out.commit blk cs ∈ upd net.outs i (net.outs i ++ w'.outs) j → blk.hash = commitHash cs
+        rw [upd_other _ _ hji, upd_other _ _ hji]
+        exact hold j hhj hmj
+    cases hs with
+    | start i first spi w' g hh hm hs hr hst =>
+      obtain ⟨f1, f2, f3⟩ := hinv.fresh i hs
+      have hni : NodeInv C net.H i (net.node i) (net.outs i) := by
+        rw [f1, f2]
+        exact ⟨⟨[], core_init C net.H i f3, rfl⟩, univ_init _, viewsOK_init _, C10.lvInv_init _, fun _ _ hm => by cases hm⟩
+      exact common i (.start first) spi w' g hh hm
+        (step_inv hwf net hinv i (.start first) spi w' g hh hm trivial trivial hr hst hni (by intro c _; rw [f1]) trivial).2 hA2
+    | event i e spi w' g hh hm hs hns hg ha hr hst =>
+      have hni := hinv.nodes i hh hm hs
+      obtain ⟨T, hcore, _⟩ := hni.core
+      exact common i e spi w' g hh hm
+        (step_inv hwf net hinv i e spi w' g hh hm hg ha hr hst hni (by intro c hc; exact absurd hc (hns c))
+          (eventClean_of_gate (net.node i) e (by rw [hcore.cfg]; exact hg))).2 hA2
 
 end LeanHelix.Net
